@@ -34,7 +34,7 @@ ASSUMPTIONS = [
     'files used',
     'exceptions compare by type; digests cover public attributes only',
 ]
-KINDS = {'bfs': (16, 32, 1), 'hist_dwarf': (48, 1200, 2), 'hist_elf': (48, 1200, 2), 'hist_cfi': (60, 1500, 4), 'hist_lists': (80, 2000, 4)}
+KINDS = {'bfs': (16, 32, 1), 'hist_dwarf': (48, 1200, 2), 'hist_elf': (48, 1200, 2), 'hist_obj': (400, 8000, 8), 'hist_cfi': (60, 1500, 4), 'hist_lists': (80, 2000, 4)}
 FLOOR = {'quick': 5000, 'thorough': 100000}
 CASE_TIMEOUT = 3000
 STEP_BUDGET = 2000000000
@@ -527,6 +527,8 @@ class HeldObjects:
     """Section and segment objects handed out once and used again by later operations of a history, so that whatever
     an object remembers from an earlier (possibly abandoned) walk meets the next query. Everything else goes to the file."""
 
+    refresh = 0.3           # how often an object is handed out anew
+
     def __init__(self, ef, rng):
         self._ef, self._rng, self._secs, self._segs = ef, rng, {}, {}
 
@@ -534,17 +536,36 @@ class HeldObjects:
         return getattr(self._ef, name)
 
     def get_section(self, i):
-        if i not in self._secs or self._rng.random() < 0.3:
+        if i not in self._secs or self._rng.random() < self.refresh:
             self._secs[i] = self._ef.get_section(i)
         return self._secs[i]
 
     def get_segment(self, i):
-        if i not in self._segs or self._rng.random() < 0.3:
+        if i not in self._segs or self._rng.random() < self.refresh:
             self._segs[i] = self._ef.get_segment(i)
         return self._segs[i]
 
 
+WALKS = ('itersym', 'tags', 'notes', 'segtags', 'segsyms', 'segnotes')
+
+
 def elf_apply(ef, op):
+    k = op[0]
+    if k in WALKS and len(op) > 3:
+        # the caller uses the shared stream between two steps of the walk (op[3] is None in the reference run)
+        pos, op = op[3], op[:3]
+        real_islice = itertools.islice
+
+        def disturbed(it, n):
+            for j, x in enumerate(real_islice(it, n)):
+                yield x
+                if pos is not None:
+                    ef.stream.seek(pos + j)
+        return _elf_apply(ef, op, disturbed)
+    return _elf_apply(ef, op, itertools.islice)
+
+
+def _elf_apply(ef, op, islice):
     k = op[0]
     try:
         if k == 'nsec':
@@ -581,13 +602,13 @@ def elf_apply(ef, op):
             return tuple(ef.address_offsets(op[1], op[2]))
         if k == 'segtags':
             s = ef.get_segment(op[1])
-            return tuple((repr(t.entry), getattr(t, 'needed', None)) for t in itertools.islice(s.iter_tags(), op[2]))
+            return tuple((repr(t.entry), getattr(t, 'needed', None)) for t in islice(s.iter_tags(), op[2]))
         if k == 'segnotes':
             s = ef.get_segment(op[1])
-            return tuple(repr(sorted((kk, repr(v)) for kk, v in n.items())) for n in itertools.islice(s.iter_notes(), op[2]))
+            return tuple(repr(sorted((kk, repr(v)) for kk, v in n.items())) for n in islice(s.iter_notes(), op[2]))
         if k == 'segsyms':
             s = ef.get_segment(op[1])
-            return tuple((x.name, repr(x.entry)) for x in itertools.islice(s.iter_symbols(), op[2]))
+            return tuple((x.name, repr(x.entry)) for x in islice(s.iter_symbols(), op[2]))
         s = ef.get_section(op[1])
         if k == 'sym':
             x = s.get_symbol(op[2])
@@ -596,15 +617,24 @@ def elf_apply(ef, op):
             r = s.get_symbol_by_name(op[2])
             return None if r is None else tuple((x.name, repr(x.entry)) for x in r)
         if k == 'itersym':
-            return tuple((x.name, repr(x.entry)) for x in itertools.islice(s.iter_symbols(), op[2]))
+            return tuple((x.name, repr(x.entry)) for x in islice(s.iter_symbols(), op[2]))
         if k == 'tags':
-            return tuple((repr(t.entry), getattr(t, 'needed', None)) for t in itertools.islice(s.iter_tags(), op[2]))
+            return tuple((repr(t.entry), getattr(t, 'needed', None)) for t in islice(s.iter_tags(), op[2]))
         if k == 'ntags':
             return s.num_tags()
         if k == 'notes':
-            return tuple(repr(sorted((kk, repr(v)) for kk, v in n.items())) for n in itertools.islice(s.iter_notes(), op[2]))
+            return tuple(repr(sorted((kk, repr(v)) for kk, v in n.items())) for n in islice(s.iter_notes(), op[2]))
         if k == 'rel':
             return repr(s.get_relocation(op[2]).entry)
+        if k == 'iterrel':          # a walk during which the caller uses the stream (reading the in-place addends, say)
+            out = []
+            for r in itertools.islice(s.iter_relocations(), op[2]):
+                out.append(repr(r.entry))
+                if op[3] is not None:
+                    ef.stream.seek(op[3] + len(out))
+            return tuple(out)
+        if k == 'hasidx':
+            return s.has_indexes() if hasattr(s, 'has_indexes') else None
         if k == 'hash':
             r = s.get_symbol(op[2])
             return None if r is None else (r.name, repr(r.entry))
@@ -628,7 +658,7 @@ def elf_apply(ef, op):
     raise ValueError(op)
 
 
-def run_hist_elf(idx, rng, sh):
+def run_hist_elf(idx, rng, sh, focus=False):
     from elftools.elf.elffile import ELFFile
     from elftools.elf.sections import SymbolTableSection, NoteSection, StringTableSection, AttributesSection
     from elftools.elf.dynamic import DynamicSection, DynamicSegment
@@ -638,8 +668,13 @@ def run_hist_elf(idx, rng, sh):
     files = [f for f in sorted(glob.glob(os.path.join(REPO, 'test', 'testfiles_for_*', '*')))
              if os.path.isfile(f) and 300 < os.path.getsize(f) < 300000]
     rng.shuffle(files)
-    if rng.random() < 0.25:     # files with compressed sections first: their content is produced lazily
+    if focus:
+        files.sort()            # every corpus file in turn
+        files = files[idx % len(files):] + files[:idx % len(files)]
+    elif rng.random() < 0.25:     # files with compressed sections first: their content is produced lazily
         files.sort(key=lambda f: 'compress' not in os.path.basename(f))
+    elif idx % 6 == 1:          # the file with a RELR table, whose entries are expanded while walking
+        files.sort(key=lambda f: 'relro' not in os.path.basename(f))
     data = None
     for f in files[:20]:
         with open(f, 'rb') as fh:
@@ -668,15 +703,40 @@ def run_hist_elf(idx, rng, sh):
     dynsegs = [i for i in range(nseg) if isinstance(ef0.get_segment(i), DynamicSegment)]
     from elftools.elf.segments import NoteSegment
     notesegs = [i for i in range(nseg) if isinstance(ef0.get_segment(i), NoteSegment)]
-    M = {'sym': SymbolTableSection, 'symbyname': SymbolTableSection, 'itersym': SymbolTableSection, 'tags': DynamicSection,
+    from elftools.elf.relocation import RelrRelocationSection
+    M = {'iterrel': (RelocationSection, RelrRelocationSection), 'hasidx': GNUVerNeedSection, 'sym': SymbolTableSection, 'symbyname': SymbolTableSection, 'itersym': SymbolTableSection, 'tags': DynamicSection,
          'ntags': DynamicSection, 'notes': NoteSection, 'rel': RelocationSection, 'hash': (ELFHashSection, GNUHashSection),
          'hashcount': (ELFHashSection, GNUHashSection), 'vers': (GNUVerNeedSection, GNUVerDefSection),
          'getver': (GNUVerNeedSection, GNUVerDefSection), 'versym': GNUVerSymSection, 'getstr': StringTableSection,
          'attrs': AttributesSection}
 
+    # focus mode: the whole history goes to ONE section object (never handed out anew), so that anything the object keeps
+    # from one call - a table filled by a walk that was given up, a position, a flag - meets every other call
+    fi = None
+    if focus:
+        cands = [i for i, x in enumerate(secs) if any(isinstance(x, c) for c in M.values())]
+        if not cands:
+            sh.skip('no section of a class with state of its own')
+            return
+        # rarer classes first
+        rare = [i for i in cands if not isinstance(secs[i], (SymbolTableSection, StringTableSection))]
+        # every class the file has in turn (the file itself comes round again after len(files) cases)
+        classes = sorted({type(secs[i]).__name__ for i in (rare or cands)})
+        # the classes few corpus files have come first; round r of the rotation through the files takes the r-th class
+        prio = ['RelrRelocationSection', 'GNUVerDefSection', 'SUNWSyminfoTableSection', 'ELFHashSection', 'RISCVAttributesSection',
+                'GNUVerNeedSection', 'GNUHashSection', 'GNUVerSymSection', 'ARMAttributesSection', 'DynamicSection', 'NoteSection',
+                'RelocationSection', 'StringTableSection', 'SymbolTableSection']
+        classes.sort(key=lambda c: prio.index(c) if c in prio else len(prio))
+        want_cls = classes[(idx // max(1, len(files))) % len(classes)]
+        fi = rng.choice([i for i in (rare or cands) if type(secs[i]).__name__ == want_cls])
+        fkinds = [k for k in M if isinstance(secs[fi], M[k])]
+
     def rand_op():
-        k = rng.choice(['nsec', 'sec', 'byname', 'index', 'has', 'iter', 'data', 'data_twice', 'data_after', 'seg', 'segdata', 'addr', 'segtags',
-                        'segsyms', 'segnotes'] + list(M))
+        k = rng.choice(fkinds + ['data', 'sec']) if focus else rng.choice(
+            ['nsec', 'sec', 'byname', 'index', 'has', 'iter', 'data', 'data_twice', 'data_after', 'seg', 'segdata', 'addr', 'segtags',
+             'segsyms', 'segnotes'] + list(M))
+        if focus and k in ('data', 'sec'):
+            return (k, fi)
         if k == 'nsec':
             return (k,)
         if k in ('data_twice', 'data_after'):
@@ -693,10 +753,10 @@ def run_hist_elf(idx, rng, sh):
         if k == 'addr':
             return (k, rng.choice([0x400000, 0x400100, 0x601000, 0x1000, 0x10000, 0, 0x8000, 0x10074]), rng.choice([1, 8, 0x1000]))
         if k == 'segnotes':
-            return (k, rng.choice(notesegs), rng.randint(1, 6)) if notesegs else ('nsec',)
+            return ((k, rng.choice(notesegs), rng.randint(1, 6)) + ((rng.randrange(len(data)),) if rng.random() < 0.5 else ())) if notesegs else ('nsec',)
         if k in ('segtags', 'segsyms'):
-            return (k, rng.choice(dynsegs), rng.randint(1, 8)) if dynsegs else ('nsec',)
-        c = [i for i, s in enumerate(secs) if isinstance(s, M[k])]
+            return ((k, rng.choice(dynsegs), rng.randint(1, 8)) + ((rng.randrange(len(data)),) if rng.random() < 0.5 else ())) if dynsegs else ('nsec',)
+        c = [fi] if focus else [i for i, s in enumerate(secs) if isinstance(s, M[k])]
         if not c:
             return ('nsec',)
         i = rng.choice(c)
@@ -705,9 +765,13 @@ def run_hist_elf(idx, rng, sh):
         if k in ('symbyname', 'hash'):
             return (k, i, rng.choice(symnames))
         if k in ('itersym', 'tags', 'notes', 'attrs'):
+            if k != 'attrs' and rng.random() < 0.5:
+                return (k, i, rng.randint(2, 6), rng.randrange(len(data)))
             return (k, i, rng.randint(1, 6))
         if k == 'rel':
             return (k, i, rng.randrange(max(1, secs[i].num_relocations())))
+        if k == 'iterrel':
+            return (k, i, rng.randint(2, 12), rng.randrange(len(data)))
         if k == 'versym':
             return (k, i, rng.randrange(max(1, secs[i].num_symbols())))
         if k == 'getver':
@@ -719,17 +783,23 @@ def run_hist_elf(idx, rng, sh):
     hist = []
     st = io.BytesIO(data)
     ef_real = ELFFile(st)
-    ef = HeldObjects(ef_real, rng) if idx % 2 else ef_real        # every other history re-uses the objects it was handed
+    ef = HeldObjects(ef_real, rng) if idx % 2 or focus else ef_real        # every other history re-uses the objects it was handed
+    if focus:
+        ef.refresh = 0.0
     truth_names = {}
     for i, s in enumerate(secs):
         truth_names[s.name] = i
     nops = rng.choice([80, 200]) if sh.tier == 'quick' else rng.choice([80, 200, 400])
+    if focus:
+        nops = rng.choice([6, 12, 30])
     for i in range(nops):
         op = rand_op()
         st.seek(rng.choice([0, len(data), len(data) + 9, rng.randrange(len(data))]))
         got = elf_apply(ef, op)
         # the reference answer of the held-object reads is the plain read of that section on a fresh object
         ref = ('data', op[1]) if op[0] in ('data_twice', 'data_after') else op
+        if op[0] == 'iterrel' or (op[0] in WALKS and len(op) > 3):
+            ref = op[:3] + (None,)          # the reference walk is the undisturbed one
         if ref not in fresh:
             fresh[ref] = elf_apply(ELFFile(io.BytesIO(data)), ref)
         if got != fresh[ref]:
@@ -746,8 +816,12 @@ def run_hist_elf(idx, rng, sh):
         sh.sig((op[0], name, i // 50))
     sh.held(n=len(hist))
     sh.count('elf_history_operations', len(hist))
-    sh.count('elf_histories_with_held_objects', idx % 2)
-    sh.sample({'mode': 'elf-history', 'file': name, 'held_objects': bool(idx % 2), 'operations': len(hist), 'last': [list(o) for o in hist[-5:]]}, kind='hist_elf')
+    sh.count('elf_histories_with_held_objects', 1 if focus else idx % 2)
+    if focus:
+        sh.count('single_object_histories')
+        sh.count('single_object_histories:' + type(secs[fi]).__name__)
+        sh.sig(('focus', type(secs[fi]).__name__, name))
+    sh.sample({'mode': 'single-object history' if focus else 'elf-history', 'file': name, 'held_objects': bool(idx % 2) or focus, 'operations': len(hist), 'last': [list(o) for o in hist[-5:]]}, kind='hist_obj' if focus else 'hist_elf')
 
 
 def run_hist_cfi(idx, rng, sh):
@@ -943,7 +1017,7 @@ def run_hist_lists(idx, rng, sh):
 
 
 def run_case(kind, idx, rng, sh):
-    {'bfs': run_bfs, 'hist_dwarf': run_hist_dwarf, 'hist_elf': run_hist_elf, 'hist_cfi': run_hist_cfi, 'hist_lists': run_hist_lists}[kind](idx, rng, sh)
+    {'bfs': run_bfs, 'hist_dwarf': run_hist_dwarf, 'hist_elf': run_hist_elf, 'hist_obj': lambda i, r, h: run_hist_elf(i, r, h, focus=True), 'hist_cfi': run_hist_cfi, 'hist_lists': run_hist_lists}[kind](idx, rng, sh)
 
 
 def finish(m, tier, seed):
